@@ -587,7 +587,8 @@ def check_formats(ctx, F):
                 size = (w, abs(v), 0)
                 if impl != model:
                     F.model_fail('to_str:model', size, 'val_to_formatted_str(%d, %r) = %r, model %r' % (v, f, impl, model), rep)
-                if 0 <= v < (1 << w) and f[:1] in list('suxbe') and not f.endswith('Nope') and f[1:].split('/')[0].isdigit():
+                if 0 <= v < (1 << w) and f[:1] in list('suxbe') and not f.endswith('Nope') \
+                        and f[1:].split('/')[0] == str(w) and (f[:1] != 'e' or f.count('/') == 1):
                     want = spec_to_str(v, f[0], w)
                     if impl != want:
                         F.spec_fail('val_to_formatted_str:text:%s' % f[0], size,
